@@ -16,7 +16,7 @@ Require Import String.
 Require Import Arith Lia List Bool ZArith QArith Qcanon Permutation.
 From TK Require Import Mat_Sums Mat_Core Mat_Qc Mat_EigSelect EigSelect Mat_EigSelect_Tie
                        Lle_Model Lle_Spec Lle_Proof_Triplets Lle_Proof_Lle Lle_Proof_Ltsa
-                       Lle_Proof_Hlle Lle_Proof_Embed Lle_Proof_Gs Lle_Proof_KyFan.
+                       Lle_Proof_Hlle Lle_Proof_Embed Lle_Proof_Gs Lle_Proof_GsQc Lle_Proof_KyFan.
 Import ListNotations.
 Local Open Scope nat_scope.
 
@@ -234,6 +234,36 @@ Theorem C08_hlle_local_annihilates :
     (forall t, t < d -> sumn k (fun b => (hlle_local_sf false k d prev V a b * V b t)%F) = 0%F).
 Proof. exact @hlle_local_annihilates. Qed.
 Print Assumptions C08_hlle_local_annihilates.
+
+(* the Gram-Schmidt loop AS WRITTEN (sqrt value oracle for .norm(), the `colsum > 1e-4` test) computes
+   the same local matrix as the sqrt-free form that is executed: the oracle contract is
+   sqrt(x)^2 = x on the squared norms that occur, and `0 > 1e-4` is false *)
+Theorem C08_hlle_local_sqrt_free :
+  forall (F : Type) (Fo : FieldOps F) (Ff : IsField F) (sqrtf : F -> F) (gt_thr : F -> bool)
+         (k d : nat) (prev V : mat F) (a b : nat),
+    gs_nondegenerate (hlle_gs_sf false k d prev V) ->
+    sqrt_ok sqrtf (hlle_gs_sf false k d prev V) ->
+    gt_thr 0%F = false -> a < k -> b < k ->
+    hlle_local sqrtf gt_thr false k d prev V a b = hlle_local_sf false k d prev V a b.
+Proof. exact @hlle_local_sqrt_free. Qed.
+Print Assumptions C08_hlle_local_sqrt_free.
+
+(* non-vacuity of the two Gram-Schmidt theorems: k = 4, d = 1, tangent coordinate (1,-1,7,-7):
+   squared norms 4, 100, 2304 are rational squares *)
+Definition c08_V4 : mat Qc := mof [[qz 1]; [qz (-1)]; [qz 7]; [qz (-7)]].
+Definition c08_sqrt (x : Qc) : Qc :=
+  if qeqb x (qz 4) then qz 2 else if qeqb x (qz 100) then qz 10 else if qeqb x (qz 2304) then qz 48 else qz 0.
+
+Example C08_hlle_gs_nonvacuous :
+  gs_nondegenerate (hlle_gs_sf false 4 1 (fun _ _ => 0%F) c08_V4) /\
+  sqrt_ok c08_sqrt (hlle_gs_sf false 4 1 (fun _ _ => 0%F) c08_V4) /\
+  map snd (hlle_gs_sf false 4 1 (fun _ _ => 0%F) c08_V4) = [qz 4; qz 100; qz 2304].
+Proof.
+  split; [|split].
+  - apply gs_nondegenerate_by_compute. vm_compute. reflexivity.
+  - apply sqrt_ok_by_compute. vm_compute. reflexivity.
+  - apply vlist_eqb_ok. vm_compute. reflexivity.
+Qed.
 
 (* ---------------------------------------------------------------------- *)
 (* 4. selection of the eigenpairs (generated table) and the embedding      *)
